@@ -15,6 +15,7 @@ import (
 	"runtime"
 	"sort"
 	"strconv"
+	"strings"
 	"sync"
 	"sync/atomic"
 	"testing"
@@ -873,9 +874,10 @@ type c20MsgKey struct {
 }
 
 type c20DOp struct {
-	Op  string     `json:"op"` // reg unreg disp dispnostream drain regnil regnone unregnil unregnone dispnil disphdrnil dispdatanil
+	Op  string     `json:"op"` // reg unreg disp burst dispnostream drain regnil regnone unregnil unregnone dispnil disphdrnil dispdatanil
 	Sub int        `json:"sub,omitempty"`
 	Msg *c20MsgKey `json:"msg,omitempty"`
+	N   int        `json:"n,omitempty"` // burst: the sender builds N messages "<logid>-<i>" back to back (default log ids)
 }
 
 type c20DispProg struct {
@@ -957,21 +959,56 @@ func c20PayloadByID(id int) proto.Message {
 // stamped with the sender's id by the transport, encoded, decoded.
 func c20BuildMsg(k *c20MsgKey) *pb.XuperMessage {
 	var m *pb.XuperMessage
+	if strings.HasPrefix(k.Logid, "auto") {
+		// one sender-side message per key: a repeat is a second wire copy of the same message
+		c20AutoMu.Lock()
+		wire := c20AutoWire[k.full()]
+		c20AutoMu.Unlock()
+		if wire != nil {
+			recv := &pb.XuperMessage{}
+			if err := proto.Unmarshal(wire, recv); err != nil {
+				panic(err)
+			}
+			return recv
+		}
+	}
+	opts := []p2p.MessageOption{p2p.WithBCName(k.BC)}
+	if !strings.HasPrefix(k.Logid, "auto") {
+		// "auto<n>": the sender does not choose a log id (NewMessage's default): every such message is a message of its own
+		opts = append(opts, p2p.WithLogId(k.Logid))
+	}
 	if pl := c20PayloadByID(k.Payload); pl == nil {
-		m = p2p.NewMessage(pb.XuperMessage_MessageType(k.Type), nil, p2p.WithBCName(k.BC), p2p.WithLogId(k.Logid))
+		m = p2p.NewMessage(pb.XuperMessage_MessageType(k.Type), nil, opts...)
 	} else {
-		m = p2p.NewMessage(pb.XuperMessage_MessageType(k.Type), pl, p2p.WithBCName(k.BC), p2p.WithLogId(k.Logid))
+		m = p2p.NewMessage(pb.XuperMessage_MessageType(k.Type), pl, opts...)
 	}
 	m.Header.From = k.From
 	wire, err := proto.Marshal(m)
 	if err != nil {
 		panic(err)
 	}
+	if strings.HasPrefix(k.Logid, "auto") {
+		c20AutoMu.Lock()
+		c20AutoWire[k.full()] = wire
+		c20AutoMu.Unlock()
+	}
 	recv := &pb.XuperMessage{}
 	if err := proto.Unmarshal(wire, recv); err != nil {
 		panic(err)
 	}
 	return recv
+}
+
+// c20AutoWire: the wire bytes of the messages sent with the default log id in the current run
+var (
+	c20AutoMu   sync.Mutex
+	c20AutoWire = map[string][]byte{}
+)
+
+func c20ResetAuto() {
+	c20AutoMu.Lock()
+	c20AutoWire = map[string][]byte{}
+	c20AutoMu.Unlock()
 }
 
 func (k *c20MsgKey) full() string {
@@ -1029,6 +1066,7 @@ func c20ErrIn(err error, allowed ...error) bool {
 
 // c20RunDisp interprets a sequential program against the multiset model.
 func c20RunDisp(p *c20DispProg) *c20DispOut {
+	c20ResetAuto()
 	o := &c20DispOut{}
 	d := c20NewDispatcher()
 	n := len(p.Subs)
@@ -1189,6 +1227,26 @@ func c20RunDisp(p *c20DispProg) *c20DispOut {
 				}
 			}
 			queue[op.Sub], occ[op.Sub] = nil, 0
+		case "burst":
+			// the sender builds N messages of one shape in a tight loop, none with a chosen log id: N messages
+			// of their own; the following disp ops deliver them
+			built := make([]*pb.XuperMessage, op.N)
+			for i := range built {
+				built[i] = p2p.NewMessage(pb.XuperMessage_MessageType(op.Msg.Type), nil, p2p.WithBCName(op.Msg.BC))
+			}
+			for i, m := range built {
+				m.Header.From = op.Msg.From
+				wire, err := proto.Marshal(m)
+				if err != nil {
+					panic(err)
+				}
+				ki := *op.Msg
+				ki.Logid = fmt.Sprintf("%s-%d", op.Msg.Logid, i)
+				c20AutoMu.Lock()
+				c20AutoWire[ki.full()] = wire
+				c20AutoMu.Unlock()
+			}
+			o.label("burst-of-default-logids")
 		case "dispnostream":
 			k := op.Msg
 			st := states[k.full()]
@@ -1377,13 +1435,18 @@ func c20GenSub(rt *rapid.T, types []int32) c20SubSpec {
 }
 
 func c20GenKey(rt *rapid.T, types []int32) *c20MsgKey {
-	return &c20MsgKey{
+	k := &c20MsgKey{
 		Type:    rapid.SampledFrom(types).Draw(rt, "msgtype"),
-		BC:      rapid.SampledFrom([]string{"xuper", "xuper", "other"}).Draw(rt, "msgbc"),
+		BC:      rapid.SampledFrom([]string{"xuper", "xuper", "other", ""}).Draw(rt, "msgbc"),
 		From:    rapid.SampledFrom([]string{"peerA", "peerA", "peerB", ""}).Draw(rt, "msgfrom"),
-		Logid:   rapid.SampledFrom([]string{"L0", "L1", "L2", "L3", "L4", "L5", "L6", "L7"}).Draw(rt, "logid"),
+		Logid:   rapid.SampledFrom([]string{"L0", "L1", "L2", "L3", "L4", "L5", "L6", "L7", "auto", "auto", "auto"}).Draw(rt, "logid"),
 		Payload: rapid.SampledFrom([]int{0, 1, 1, 2, 3}).Draw(rt, "payload"),
 	}
+	if k.Logid == "auto" {
+		// the default log id (the caller numbers it by its position in the program)
+		k.Payload = 0 // the payload-less request is the shape in which only the log id tells two messages apart
+	}
+	return k
 }
 
 func c20GenDispProg(rt *rapid.T, maxOps int) *c20DispProg {
@@ -1410,6 +1473,20 @@ func c20GenDispProg(rt *rapid.T, maxOps int) *c20DispProg {
 			p.Ops = append(p.Ops, c20DOp{Op: "unreg", Sub: rapid.IntRange(0, ns-1).Draw(rt, "sub")})
 		case kind < 70:
 			k := c20GenKey(rt, c20MsgTypes)
+			if k.Logid == "auto" {
+				k.Logid = fmt.Sprintf("auto%d", len(p.Ops))
+				if rapid.IntRange(0, 3).Draw(rt, "burst") == 0 {
+					nb := rapid.IntRange(2, 24).Draw(rt, "burstn")
+					p.Ops = append(p.Ops, c20DOp{Op: "burst", Msg: k, N: nb})
+					for bi := 0; bi < nb; bi++ {
+						kb := *k
+						kb.Logid = fmt.Sprintf("%s-%d", k.Logid, bi)
+						sent = append(sent, &kb)
+						p.Ops = append(p.Ops, c20DOp{Op: "disp", Msg: &kb})
+					}
+					continue
+				}
+			}
 			sent = append(sent, k)
 			p.Ops = append(p.Ops, c20DOp{Op: "disp", Msg: k})
 		case kind < 84 && len(sent) > 0: // a repeat (mostly of the last message)
@@ -1450,6 +1527,9 @@ func c20GenDispProg(rt *rapid.T, maxOps int) *c20DispProg {
 					op.Msg = &k
 				} else {
 					op.Msg = c20GenKey(rt, c20MsgTypes)
+					if op.Msg.Logid == "auto" {
+						op.Msg.Logid = fmt.Sprintf("auto%d", len(p.Ops))
+					}
 				}
 			}
 			p.Ops = append(p.Ops, op)
